@@ -462,54 +462,101 @@ func (r *dqRun) recover(x *Exec, s *simrt.Sim) {
 		s.Fail(prop+":recovery", "%s [handed=%d syncedWrites=%d enqueued=%d delivered=%d maxBytes=%d syncEvery=%d crash after op %d]", why, H, S, len(E), len(D), r.plan.MaxBytes, r.plan.SyncEvery, r.crashAt)
 		return
 	}
-	// the reopened queue must still work: a fresh message goes in and comes out, once
-	probe := []byte(fmt.Sprintf("PROBE-after-crash-%d", r.crashAt))
-	putOK := false
-	s.Spawn("probe-put", "client", "inc2", func() {
-		err := q2.Put(probe)
-		simrt.Yield("dq.probe.returned")
-		if err != nil {
-			s.Fail(prop+":probe-put", "Put after recovery returned %v", err)
+	// the reopened queue must still work: fresh messages go in (each Put returns) and whatever comes out from now on is, together
+	// with the run delivered above, in the original relative order of everything ever enqueued (old incarnation first, then the
+	// fresh ones) -- a record of the old incarnation that the crash cut off must not resurface behind a fresh message, and a fresh
+	// message must not be replaced by stale bytes.  Whether every fresh message is delivered is outside the statement of C08 and
+	// is only recorded.
+	nFresh := 1 + r.crashAt%3
+	var fresh [][]byte
+	for i := 0; i <= nFresh; i++ {
+		fresh = append(fresh, []byte(fmt.Sprintf("PROBE-after-crash-%d-%d-%s", r.crashAt, i, strings.Repeat("p", (r.crashAt*7+i*13)%40))))
+	}
+	put := func(m []byte) bool {
+		putOK := false
+		s.Spawn("probe-put", "client", "inc2", func() {
+			err := q2.Put(m)
+			simrt.Yield("dq.probe.returned")
+			if err != nil {
+				s.Fail(prop+":probe-put", "Put after recovery returned %v", err)
+			}
+			putOK = true
+			r.cond.Broadcast()
+		})
+		if !r.cond.Wait(func() bool { return putOK }, time.Now().Add(time.Minute)) {
+			s.Fail(prop+":hang", "Put on the recovered queue did not return within a simulated minute")
+			return false
 		}
-		putOK = true
-		r.cond.Broadcast()
-	})
-	if !r.cond.Wait(func() bool { return putOK }, time.Now().Add(time.Minute)) {
-		s.Fail(prop+":hang", "Put on the recovered queue did not return within a simulated minute")
+		return true
+	}
+	r.deliv = nil
+	if !put(fresh[0]) {
 		return
 	}
-	// "never hangs": after the Put the queue must settle (no spinning I/O loop); whatever it still
-	// delivers must be the probe or an intact, previously enqueued message -- never garbage.
-	// (Whether the probe itself is delivered is outside the statement of C08 and is only recorded.)
-	r.deliv = nil
-	got := false
-	for i := 0; i < 4 && !got; i++ {
-		if r.get(patience) {
-			if bytes.Equal(r.deliv[len(r.deliv)-1], probe) {
-				got = true
-			}
+	// "never hangs": after the Put the queue must settle (no spinning I/O loop)
+	for i := 0; i < 3; i++ {
+		if r.get(patience) && bytes.Equal(r.deliv[len(r.deliv)-1], fresh[0]) {
+			break
 		}
 	}
-	if got {
-		s.Probe("dq.probe_delivered")
-	} else {
-		s.Probe("dq.probe_not_delivered")
-	}
-	for _, m := range r.deliv {
-		if bytes.Equal(m, probe) {
-			continue
+	for _, m := range fresh[1:] {
+		if !put(m) {
+			return
 		}
-		okm := false
-		for _, e := range E {
-			if bytes.Equal(e, m) {
-				okm = true
+	}
+	misses = 0
+	for misses < 2 && len(r.deliv) <= len(E)+len(fresh)+2 {
+		if !r.get(patience) {
+			misses++
+		}
+	}
+	all := append(append([][]byte{}, E...), fresh...)
+	last := -1
+	if len(D) > 0 {
+		for i := range E {
+			if bytes.Equal(E[i], D[0]) {
+				last = i + len(D) - 1
 				break
 			}
 		}
-		if !okm {
-			s.Fail(prop+":garbage", "message %s delivered after recovery was never enqueued", Short(m))
+	}
+	freshGot := 0
+	for k, m := range r.deliv {
+		idx := -1
+		for i := last + 1; i < len(all); i++ {
+			if bytes.Equal(all[i], m) {
+				idx = i
+				break
+			}
+		}
+		if idx < 0 {
+			known := false
+			for _, e := range all {
+				if bytes.Equal(e, m) {
+					known = true
+					break
+				}
+			}
+			if !known {
+				s.Fail(prop+":garbage", "message %s delivered after recovery was never enqueued", Short(m))
+			} else {
+				s.Fail(prop+":order-after-recovery", "delivery #%d after the recovered run, %s, was enqueued before a message that had already been delivered (or is delivered twice): messages do not come out in their original relative order [recovered run %d messages, %d fresh messages, crash after op %d]", k, Short(m), len(D), len(fresh), r.crashAt)
+			}
 			return
 		}
+		if idx < len(E) && idx != last+1 {
+			s.Fail(prop+":recovery", "message #%d of the old incarnation is delivered after the recovered run ended at #%d: the run is not contiguous", idx, last)
+			return
+		}
+		if idx >= len(E) {
+			freshGot++
+		}
+		last = idx
+	}
+	if freshGot == len(fresh) {
+		s.Probe("dq.probe_delivered")
+	} else {
+		s.Probe("dq.probe_not_delivered")
 	}
 	x.Out.Nontrivial = len(E) >= 1
 	x.Out.StateSig = fmt.Sprintf("crash=%d H=%d S=%d E=%d D=%d", r.crashAt, H, S, len(E), len(D))
